@@ -70,6 +70,10 @@ class Prop:
     def neighbours(self, case, rng):
         return iter(())
 
+    def pre_static(self):
+        """obligations decided without the correspondence harness (before it is built)"""
+        return []
+
     def static_checks(self, ctx):
         """property-specific checks that are not case-based (inventory, rustc probes).
         Returns a list of (kind, text) failures; kind in {'judge','corr'}."""
@@ -245,6 +249,19 @@ class Runner:
         known = load_known()
         rng = random.Random(self.seed)
         bins = {}
+        # obligations that do not need the correspondence harness (type-level ones: the compiler is the
+        # judge and the offending type is the witness) are decided first, so that a change of the public
+        # types is reported as what it is and not as "the harness no longer compiles"
+        pre = [t for k, t in prop.pre_static() if k == "judge"]
+        if pre:
+            os.makedirs(os.path.join(VERIF, "replays"), exist_ok=True)
+            path = os.path.join(VERIF, "replays", "%s-static.json" % prop.id)
+            json.dump({"property": prop.id, "kind": "property-violated-by-implementation (static obligation)", "detail": pre[0]},
+                      open(path, "w"), indent=1)
+            print("VIOLATION property=%s replay=%s" % (prop.id, path))
+            self.violations.append(path)
+            self.write_evidence()
+            return 1
         try:
             for prof in prop.profiles:
                 bins[prof], _ = build.build_impl(prof)
